@@ -477,7 +477,7 @@ func getClassAdFromMessageWithMaxSize(m *Message, maxSize int, ctx context.Conte
 
 			exprStr, err = m.GetStringWithMaxSize(ctx, remainingBytes)
 			if err != nil {
-				return nil, fmt.Errorf("failed to read expression %d (expected %d; partial ad: %s): %w", i, numExprs, ad.String(), err)
+				return nil, fmt.Errorf("failed to read expression %d (expected %d; %d attributes read so far): %w", i, numExprs, len(ad.GetAttributes()), err)
 			}
 
 			// Add to total: string length + null terminator
@@ -485,7 +485,7 @@ func getClassAdFromMessageWithMaxSize(m *Message, maxSize int, ctx context.Conte
 		} else {
 			exprStr, err = m.GetString(ctx)
 			if err != nil {
-				return nil, fmt.Errorf("failed to read expression %d (expected %d; partial ad: %s): %w", i, numExprs, ad.String(), err)
+				return nil, fmt.Errorf("failed to read expression %d (expected %d; %d attributes read so far): %w", i, numExprs, len(ad.GetAttributes()), err)
 			}
 		}
 
